@@ -29,7 +29,22 @@ M = [
  ('own-c17-sysexit-on-empty', 'C17', 'user_scripts/parse_folder.py',
   "    computator = Computator(page_parser,", "    if not ids_to_process:\n        sys.exit(3)\n\n    computator = Computator(page_parser,",
   'nothing-left run exits with status 3', 'a run with every page complete'),
+ ('own-c17-ctl-alto-before-xml', 'C17', 'user_scripts/parse_folder.py',
+  "            if self.output_xml_path is not None:\n                page_layout.to_pagexml(\n                    os.path.join(self.output_xml_path, file_id + '.xml'))\n",
+  "            if self.output_alto_path is not None and self.output_logit_path is None:\n                page_layout.to_altoxml(os.path.join(self.output_alto_path, file_id + '.xml'))\n\n            if self.output_xml_path is not None:\n                page_layout.to_pagexml(\n                    os.path.join(self.output_xml_path, file_id + '.xml'))\n",
+  'ALTO written (also) before PAGE XML when no logits are requested: a pure change of write order / a redundant write', 'n/a - control: order of tracked outputs is an implementation choice, must NOT be flagged'),
  # ---------------------------------------------------------------- C08
+ ('own-c08-ctl-reset-at-end', 'C08', 'pero_ocr/document_ocr/page_parser.py',
+  "        return page_layout\n\n    def decode_line(self, line):",
+  "        self.last_h = None\n        self.last_line = None\n        return page_layout\n\n    def decode_line(self, line):",
+  'decoder state additionally cleared at the end of a page', 'n/a - control: behaviour identical, must NOT be flagged'),
+ ('own-c09-ctl-protocol', 'C09', 'pero_ocr/core/layout.py',
+  "            pickle.dump(logits_dict, f, protocol=4)", "            pickle.dump(logits_dict, f, protocol=pickle.HIGHEST_PROTOCOL)",
+  'file transport uses the highest pickle protocol', 'n/a - control: content identical, must NOT be flagged'),
+ ('own-c20-ctl-zeros', 'C20', 'pero_ocr/ocr_engine/transformer.py',
+  "            self.linear_cache = torch.empty((self.max_seq_len, batch_size, embedding_len * 3), device=query.device)",
+  "            self.linear_cache = torch.zeros((self.max_seq_len, batch_size, embedding_len * 3), device=query.device)",
+  'attention cache allocated zero-filled instead of uninitialised', 'n/a - control: behaviour identical, must NOT be flagged'),
  ('own-c08-no-last-h-reset', 'C08', 'pero_ocr/document_ocr/page_parser.py',
   "        self.last_h = None\n        self.last_line = None\n        for line in page_layout.lines_iterator():",
   "        self.last_line = None\n        for line in page_layout.lines_iterator():",
